@@ -23,6 +23,7 @@ def main():
     if rc != 0:
         print(json.dumps(log, indent=1), out); return 1
     rc, out = build(); assert rc == 0, "original does not build: " + out
+    os.environ["GM2CALC_SRC"] = WT
     rc0, out0 = sh("sh %s/run.sh %s/_build" % (mdir, WT), cwd=mdir, timeout=3000); log["demo_on_original_exit"] = rc0
     sh("git -C %s apply %s" % (WT, patch))
     rc, out = build(); log["builds_with_change"] = rc == 0
